@@ -118,7 +118,39 @@ def diagnose(W):
                 st = w['proc'].status
                 return '%s-held-by-dead-worker:%s' % (locks[sid], 'sigkill' if st == ('signal', 9) else
                                                       '%s-%d' % st)
+    # any other shared lock (a worker's consumed-results counter) somebody waits for, last taken by a worker
+    # that is dead
+    waited = set()
+    for a in k.actors:
+        if a.state == 'blocked' and a.label.startswith('sem:'):
+            try:
+                waited.add(int(a.label.split(':')[1]))
+            except ValueError:
+                pass
+    if waited:
+        last = {}
+        for e in k.log:
+            if e[2] == 'sem-acq' and e[3] in waited and e[4] is True:
+                last[e[3]] = e[1]
+            elif e[2] == 'sem-rel' and e[3] in waited and e[4] != 'rec':
+                last.pop(e[3], None)
+        for sid, actor in sorted(last.items()):
+            if actor.startswith('W') and sid not in locks:
+                w = W.workers.get(int(actor[1:].split('.')[0]))
+                if w is not None and w['proc'].dead:
+                    st = w['proc'].status
+                    return 'ready-counter-lock-held-by-dead-worker:%s' % ('sigkill' if st == ('signal', 9)
+                                                                           else '%s-%d' % st)
     if not pc.get('threads', True):
+        # without helper threads nobody reads results while join() runs its shutdown steps one after the other:
+        # is a live worker blocked in a write to the (full) result pipe, holding the write lock join() needs
+        # for its own sentinel?
+        for sid, actor in holder.items():
+            if locks[sid] == 'result-queue-write-lock' and actor.startswith('W'):
+                w = W.workers.get(int(actor[1:].split('.')[0]))
+                ma = w['proc'].main if w is not None else None
+                if ma is not None and not w['proc'].dead and ma.state == 'blocked' and ma.label.startswith('write:'):
+                    return 'nothreads-result-pipe-full-nobody-reads'
         return 'nothreads'
     return 'other'
 
@@ -923,6 +955,10 @@ def judge_C07(W, ex, cause):
                 k.probe('guard_loop_exhausted')
                 if not (term_step is not None and term_step <= e[0]):
                     why = guard_cause(W, pid)
+                    if why == 'result-never-read-by-parent' and k.end_reason != 'quiescent' and cause != 'other':
+                        # the run is stuck for a diagnosed reason and nobody reads results any more: the worker
+                        # waiting out its guard is a consequence of that, not a second defect
+                        why = cause
                     bad('C07.g', 'guard-exhausted:%s' % why,
                         'worker %d waited out its result-consumption guard (%.1fs, %d completed) although the '
                         'parent kept consuming results (%s)' % (pid, elapsed, completed, why))
